@@ -25,6 +25,10 @@ CLAIMED = {
   "Bounded symbolic model checking of the real snapshot codec and loader (Snapshot.WriteTo/ReadFrom/readFromVersion1/readSegmentSnapshot/readVarLenString/readBytes, recordSegment, countHashWriter/Reader, Writer.loadSnapshot/loadSegment, loadSegmentPlugin; bufio, io.LimitReader, binary.Uvarint, segment.Data from source): every byte string up to the stated length is decoded or rejected without panic, without an allocation a length field can push past the limit, and without touching the item's bytes after its closer ran; acceptance implies trailer == checksum of the preceding bytes, closer called once, all segments loaded; every snapshot of up to 2 (3) segments with arbitrary 64-bit ids/32-bit versions/type strings round-trips across buffer-fill boundaries.",
   "Bounds: files <= 13 bytes quick (16 thorough) for the decoder, <= 9 (13) through loadSnapshot; <= 2 (3) segments for the round trip. Stubs: roaring's serialisation (unsafe) replaced by a model codec; hash/crc32.Update replaced by a rolling checksum (the gate's compare logic is checked, CRC-32's detection strength — 'a damaged file's CRC differs' — is outside); io.CopyN by its documented contract; chunked source reader / 16-byte bufio buffer to reach buffer boundaries with short inputs; model directory (Load = private copy freed by its closer, modelling munmap) and model plugin. Native replay uses the real FileSystemDirectory with the mmap loader. Fall-back to an older snapshot is C03.",
   "DESIGN.md section 5 C12"),
+ "C09": (
+  "Bounded symbolic model checking of the real comparator, stores and collector: SortOrder.Compare is a strict total order agreeing with the reference meaning (lexicographic, desc flips, hit number last) for all key bytes; missing-value placement in all four (desc, missing-first) combinations and under Reverse; slice-store and heap-store AddNotExceedingSize/Final as one step from an arbitrary valid store (container/heap from source); collectSingle as the inductive step of 'store = best size+skip hits seen, marker = best dropped hit', so the lowest-outside shortcut and the search-after filter are decided for hit lists of any length; end-to-end Collect over the real pool for k <= 4 hits and all (n, from) in range incl. the preallocation cap; search-after and search-before paging; Collector() leaves the request's sort order unchanged.",
+  "Bounds: keys 1-2 bytes; stores n <= 5/6 quick (10/12 thorough); k <= 4 (5) hits end to end; size+skip small (the slice/heap switch at 10 is crossed only by the store-step harnesses, the collector step uses the slice store). Excluded: a real value equal to the low placeholder 0x00 or >= ten 0xFF bytes (ties with the missing-value placeholder). Outside: sources reading real doc values (score/numeric/date sources; numeric decoding is C10), MultiSearch merging.",
+  "DESIGN.md section 5 C09, appendix C.6"),
 }
 
 NA = {
